@@ -2,16 +2,21 @@ import Cjet.Deflate
 import Cjet.Lemmas.DeflateReasm
 import Cjet.Lemmas.DeflateBytes
 import Cjet.Lemmas.DeflateNego
+import Cjet.Lemmas.DeflateReads
 /-!
 # C19 — permessage-deflate: lossless round trip, bounded memory, legal negotiation
 
 Level: the bookkeeping of `compression.c` and the negotiation of `websocket.c` are proved; zlib is an
-ASSUMPTION (hypotheses `hTail`, `hInv` of `roundtrip_given_zlib_partial`), so losslessness rests on zlib
-and is only sampled by the correspondence runs.
+ASSUMPTION (hypotheses `hTail`, `hInv`, `hBound` of `roundtrip_given_zlib`: statements about the oracle
+only), so losslessness rests on zlib and is only sampled by the correspondence runs.  What needs no
+assumption about zlib — memory safety of the sender and "a complete message or an error, never a cut-off
+stream" — is proved for EVERY zlib output (`compress_never_truncates`,
+`compress_no_oob_for_any_zlib_output`).
 
-The model (`Cjet.Deflate`) follows the tree: `reasmGrowLoops` / `reasmNoBufferGuard` are regenerated from
-`compression.c` and say whether fixes F23 / F36 are present; the theorems about "the code now" are stated
-over these names, so re-introducing one of the defects breaks the build of this file.
+The model (`Cjet.Deflate`) follows the tree: `reasmGrowLoops` / `reasmNoBufferGuard` / `compressStrict` /
+`sendChecked` are regenerated from the source and say whether fixes F23 / F36 / F37 are present; the
+theorems about "the code now" are stated over these names, so re-introducing one of the defects breaks the
+build of this file.
 -/
 namespace Cjet.Props.C19
 open Cjet Cjet.Deflate Cjet.Generated.Deflate
@@ -111,17 +116,13 @@ theorem no_buffer_counterexample :
 /-! ## tail, output buffers -/
 
 /-- strip-then-reappend is the identity on streams that end with the tail … -/
-theorem tail_roundtrip (s : Bytes) (ht : endsWithTail s = true) : stripTail s ++ tail = s := by
-  unfold endsWithTail at ht
-  unfold stripTail
-  have : s.drop (s.length - tailStrip) = tail := by simpa using ht
-  rw [← this]
-  exact List.take_append_drop _ _
+theorem tail_roundtrip (s : Bytes) (ht : endsWithTail s = true) : stripTail s ++ tail = s :=
+  strip_append_tail s ht
 
 example : endsWithTail [0x72, 0x04, 0x00, 0x00, 0x00, 0xff, 0xff] = true := by decide
 
-/-- … and on no other stream of at least four bytes: `websocket_compress` only logs the mismatch and still
-    returns the shortened data, so the receiver inflates something else. -/
+/-- … and on no other stream: that is why the repaired `websocket_compress_bounded` answers -1 for a
+    wrong tail (before F37 it only logged the mismatch and still returned the shortened data). -/
 theorem tail_mismatch (s : Bytes) (ht : endsWithTail s = false) :
     stripTail s ++ tail ≠ s := by
   intro h
@@ -144,112 +145,157 @@ theorem outloop_bookkeeping (total s0 : Nat) (h : 0 < s0) :
 
 example : 0 < inflateOutFactor * 1 := by decide
 
+/-! ## the sender, for every behaviour of zlib -/
+
+/-- For EVERY zlib (any output, of any length, ending in anything — or an error) and EVERY destination
+    size: when the compressor answers with data, that data followed by the tail is the COMPLETE output
+    zlib has for the message (nothing is left pending in zlib to lead the next message) and it was strictly
+    shorter than the destination; otherwise it answers -1.  Likewise `send_frame`, also when `malloc` fails:
+    a frame with the complete message, or -1 — never a negative value used as a length. -/
+theorem compress_never_truncates (zd : Bytes → Option Bytes) (destSize : Nat) (x : Bytes) :
+    (compressNow zd destSize x = .error ∨
+      ∃ c, compressNow zd destSize x = .ok c true ∧ zd x = some (c ++ tail) ∧ (c ++ tail).length < destSize) ∧
+    ∀ (mallocOk : Bool) (dbound : Nat → Nat),
+      sendFrame compressStrict sendChecked mallocOk dbound zd x = .error ∨
+      ∃ c, sendFrame compressStrict sendChecked mallocOk dbound zd x = .sent c ∧ zd x = some (c ++ tail) := by
+  simp only [compressNow, show compressStrict = true from rfl, show sendChecked = true from rfl]
+  constructor
+  · rcases compress_strict_cases zd destSize x with h | ⟨c, h⟩
+    · exact Or.inl h
+    · exact Or.inr ⟨c, h, ((compress_strict_ok_iff zd destSize x c true).1 h).2⟩
+  · intro mallocOk dbound
+    unfold sendFrame
+    simp only [if_true]
+    cases mallocOk with
+    | false => exact Or.inl rfl
+    | true =>
+      simp only [Bool.not_true, Bool.false_eq_true, if_false]
+      rcases compress_strict_cases zd (compressBound dbound x.length) x with h | ⟨c, h⟩
+      · rw [h]; exact Or.inl rfl
+      · rw [h]
+        exact Or.inr ⟨c, rfl, ((compress_strict_ok_iff zd _ x c true).1 h).2.1⟩
+
+/-- For EVERY zlib output and EVERY destination size the compressor stays inside `dest`: zlib is handed
+    `destSize` bytes and stores no more, the tail check reads only indices `0 ≤ i < written` (bytes just
+    stored — before F37 `dest[have - 4]` with `have < 4`), the model's `wild` never happens; at level 0
+    the payload is copied only into a destination that holds it. -/
+theorem compress_no_oob_for_any_zlib_output (zd : Bytes → Option Bytes) (destSize : Nat) (x : Bytes) :
+    (compressAccess compressStrict zd destSize x).written ≤ destSize ∧
+    (∀ i ∈ (compressAccess compressStrict zd destSize x).reads,
+      0 ≤ i ∧ i < Int.ofNat (compressAccess compressStrict zd destSize x).written) ∧
+    compressNow zd destSize x ≠ .wild ∧
+    (compressCopy compressStrict destSize x = .error ∨
+      (compressCopy compressStrict destSize x = .ok x true ∧ x.length ≤ destSize)) := by
+  simp only [compressNow, show compressStrict = true from rfl]
+  refine ⟨(compressAccess_strict zd destSize x).1, (compressAccess_strict zd destSize x).2, ?_, ?_⟩
+  · rcases compress_strict_cases zd destSize x with h | ⟨c, h⟩ <;> rw [h] <;> simp
+  · rw [compressCopy_strict]
+    by_cases h : destSize < x.length
+    · exact Or.inl (by simp [h])
+    · exact Or.inr ⟨by simp [h], by omega⟩
+
 /-! ## round trip, given zlib -/
 
-/- Full statement (FALSE for the code as it is, F37): for every payload `x`
-     compress zdeflate x = .ok c true ∧ recvMessage zinflate c = .ok x ∧ (every fragmentation of c) …
-   `websocket_compress` gives zlib an output buffer of `2 * length` bytes; a payload whose deflate output
-   (with the four tail bytes) is longer — every payload below 6 bytes, the empty one — is truncated, or
-   the tail check reads in front of the buffer (`roundtrip_counterexample`). -/
-
-/-- ASSUMING zlib (`hTail`: a sync flush ends with `00 00 ff ff` behind at least one byte; `hInv`: inflate
-    undoes deflate — for the negotiated window bits and context takeover settings, which live inside the
-    two functions), and for payloads whose deflate output fits the `2 * length` buffer: compress, then
-    decompress — as one message or cut into ANY fragments — returns the payload. -/
-theorem roundtrip_given_zlib_partial (zdeflate : Bytes → Bytes) (zinflate : Bytes → Option Bytes)
-    (hTail : ∀ x, ∃ body, body ≠ [] ∧ zdeflate x = body ++ tail)
-    (hInv : ∀ x, zinflate (zdeflate x) = some x)
-    (x : Bytes) (hfit : (zdeflate x).length ≤ x.length * deflateOutFactor) :
-    ∃ c, compress zdeflate x = .ok c true ∧
-      recvMessage zinflate c = .ok x ∧
-      ∀ frs : List Bytes, frs ≠ [] → frs.flatten = c → recvFramesNow zinflate RBuf.init frs = .ok x := by
-  obtain ⟨body, hne, hb⟩ := hTail x
+/-- ASSUMING zlib for this message — `hTail`: a sync/full flush ends with `00 00 ff ff` behind at least
+    one byte; `hInv`: inflate undoes deflate (for the negotiated window bits and context takeover settings,
+    which live inside the two functions); `hBound`: zlib's documented size contract, the output is at most
+    `deflateBound(length)` plus the flush marker of at most `flushMarkerMax` bytes — `send_frame` sends the
+    message, and decompressing it — as one message or cut into ANY fragments — returns the payload.
+    Every hypothesis is about the oracle only; none restricts the payload. -/
+theorem roundtrip_given_zlib (zdeflate : Bytes → Option Bytes) (zinflate : Bytes → Option Bytes)
+    (dbound : Nat → Nat) (x body : Bytes)
+    (hTail : zdeflate x = some (body ++ tail) ∧ body ≠ [])
+    (hInv : zinflate (body ++ tail) = some x)
+    (hBound : (body ++ tail).length ≤ dbound x.length + flushMarkerMax) :
+    sendFrameNow dbound zdeflate x = .sent body ∧
+      recvMessage zinflate body = .ok x ∧
+      ∀ frs : List Bytes, frs ≠ [] → frs.flatten = body → recvFramesNow zinflate RBuf.init frs = .ok x := by
+  obtain ⟨hb, hne⟩ := hTail
   have hmsg : recvMessage zinflate body = .ok x := by
     have hlen : 0 < inflateOutFactor * body.length := by
       have : 0 < body.length := List.length_pos_iff.2 hne
       simp [inflateOutFactor]; omega
     unfold recvMessage privateDecompress
-    rw [if_neg (by omega), ← hb, hInv x]
+    rw [if_neg (by omega), hInv]
     simp only [outHave_eq x.length _ hlen, List.take_length]
-  refine ⟨body, compress_ok zdeflate x body hb hfit, hmsg, fun frs hn hf => ?_⟩
-  show recvFrames true true zinflate RBuf.init frs = .ok x
-  rw [recvFrames_eq zinflate frs hn RBuf.init 0 [] bufInv_init, List.nil_append, hf, if_neg hne, hmsg]
+  have hc : compress true zdeflate (compressBound dbound x.length) x = .ok body true :=
+    (compress_strict_ok_iff zdeflate _ x body true).2
+      ⟨rfl, hb, by simp only [compressBound, flushSpare]; omega⟩
+  refine ⟨?_, hmsg, fun frs hn hf => ?_⟩
+  · simp only [sendFrameNow, show compressStrict = true from rfl, show sendChecked = true from rfl]
+    unfold sendFrame
+    simp only [if_true, Bool.not_true, Bool.false_eq_true, if_false, hc]
+  · show recvFrames true true zinflate RBuf.init frs = .ok x
+    rw [recvFrames_eq zinflate frs hn RBuf.init 0 [] bufInv_init, List.nil_append, hf, if_neg hne, hmsg]
 
-/-- the hypotheses are satisfiable: a "stored" codec (`0 :: x ++ tail`) and a 6-byte payload -/
-example : ∃ (zd : Bytes → Bytes) (zi : Bytes → Option Bytes),
-    (∀ x, ∃ body, body ≠ [] ∧ zd x = body ++ tail) ∧ (∀ x, zi (zd x) = some x) ∧
-    (zd [1, 2, 3, 4, 5, 6]).length ≤ ([1, 2, 3, 4, 5, 6] : Bytes).length * deflateOutFactor :=
-  ⟨fun x => (0 :: x) ++ tail, fun s => some ((s.drop 1).take (s.length - 5)),
-    fun x => ⟨0 :: x, by simp, rfl⟩,
-    fun x => by simp [tail_length],
-    by decide⟩
-
+/-- the hypotheses are satisfiable, for a ONE-byte payload and for the empty one (the triggers of F37):
+    a "stored" codec (`0 :: x ++ tail`) with zlib's conservative `deflateBound` formula -/
+example : ∃ (zd : Bytes → Option Bytes) (zi : Bytes → Option Bytes) (dbound : Nat → Nat),
+    ∀ x : Bytes, (zd x = some ((0 :: x) ++ tail) ∧ (0 :: x) ≠ []) ∧ zi ((0 :: x) ++ tail) = some x ∧
+      ((0 :: x) ++ tail).length ≤ dbound x.length + flushMarkerMax :=
+  ⟨fun x => some ((0 :: x) ++ tail), fun s => some ((s.drop 1).take (s.length - 5)),
+    fun n => n + (n + 7) / 8 + (n + 63) / 64 + 5,
+    fun x => ⟨⟨rfl, by simp⟩, by simp [tail_length], by simp [tail_length, flushMarkerMax]; omega⟩⟩
 
 /-- ASSUMING zlib as a pair of coupled state machines (`R` relates a deflate state to the inflate state
-    of the other endpoint: from related states, deflate's output ends with the tail behind at least one byte,
-    inflate returns the payload, and the successor states are related again): ANY sequence of messages whose
-    deflate outputs fit, each cut into ANY fragments, arrives unchanged — the bookkeeping of `compression.c`
-    carries nothing from one message to the next. -/
-theorem roundtrip_session_given_zlib_partial {σd σi : Type}
+    of the other endpoint: from related states, deflate's output ends with the tail behind at least one byte
+    and respects the size contract `deflateBound + flushMarkerMax`, inflate returns the payload, and the
+    successor states are related again): ANY sequence of ANY messages, each cut into ANY fragments, arrives
+    unchanged — the bookkeeping of `compression.c` carries nothing from one message to the next. -/
+theorem roundtrip_session_given_zlib {σd σi : Type}
+    (dbound : Nat → Nat)
     (deflate : σd → Bytes → Bytes × σd) (inflate : σi → Bytes → Option (Bytes × σi))
     (R : σd → σi → Prop)
     (hz : ∀ sd si, R sd si → ∀ x, ∃ body si', body ≠ [] ∧ (deflate sd x).1 = body ++ tail ∧
+        (deflate sd x).1.length ≤ dbound x.length + flushMarkerMax ∧
         inflate si (deflate sd x).1 = some (x, si') ∧ R (deflate sd x).2 si')
     (cut : Bytes → List Bytes) (hcut : ∀ c, cut c ≠ [] ∧ (cut c).flatten = c)
-    (msgs : List Bytes) (sd : σd) (si : σi) (hR : R sd si) (hfit : sessionFits deflate sd msgs) :
-    sessionOk deflate inflate cut sd si msgs := by
+    (msgs : List Bytes) (sd : σd) (si : σi) (hR : R sd si) :
+    sessionOk dbound deflate inflate cut sd si msgs := by
   induction msgs generalizing sd si with
   | nil => trivial
   | cons x rest ih =>
-    obtain ⟨hf1, hf2⟩ := hfit
-    obtain ⟨body, si', hne, hb, hi, hR'⟩ := hz sd si hR x
-    have h1 := roundtrip_given_zlib_partial (fun y => (deflate sd y).1) (fun s => (inflate si s).map (·.1))
-      (fun y => by
-        obtain ⟨b, _, hb1, hb2, _, _⟩ := hz sd si hR y
-        exact ⟨b, hb1, hb2⟩)
-      (fun y => by
-        obtain ⟨_, s', _, _, hi2, _⟩ := hz sd si hR y
-        simp [hi2])
-      x hf1
-    obtain ⟨c, hc, _, hfr⟩ := h1
-    have hcb : c = body := by
-      have := compress_ok (fun y => (deflate sd y).1) x body hb hf1
-      rw [this] at hc
-      cases hc; rfl
-    subst hcb
+    obtain ⟨body, si', hne, hb, hbd, hi, hR'⟩ := hz sd si hR x
+    have h1 := roundtrip_given_zlib (fun y => some (deflate sd y).1) (fun s => (inflate si s).map (·.1))
+      dbound x body ⟨by rw [hb], hne⟩ (by rw [← hb, hi]; rfl) (by rw [← hb]; exact hbd)
+    obtain ⟨hc, _, hfr⟩ := h1
     simp only [sessionOk, hc]
-    refine ⟨hfr (cut c) (hcut c).1 (hcut c).2, ?_⟩
+    refine ⟨hfr (cut body) (hcut body).1 (hcut body).2, ?_⟩
     rw [← hb, hi]
-    exact ih (deflate sd x).2 si' hR' hf2
+    exact ih (deflate sd x).2 si' hR'
 
 /-- the hypotheses are satisfiable: a stateful "stored" codec that counts messages, one-byte fragments -/
-example : ∃ (deflate : Nat → Bytes → Bytes × Nat) (inflate : Nat → Bytes → Option (Bytes × Nat))
+example : ∃ (dbound : Nat → Nat) (deflate : Nat → Bytes → Bytes × Nat) (inflate : Nat → Bytes → Option (Bytes × Nat))
     (R : Nat → Nat → Prop) (cut : Bytes → List Bytes),
     (∀ sd si, R sd si → ∀ x, ∃ body si', body ≠ [] ∧ (deflate sd x).1 = body ++ tail ∧
+        (deflate sd x).1.length ≤ dbound x.length + flushMarkerMax ∧
         inflate si (deflate sd x).1 = some (x, si') ∧ R (deflate sd x).2 si') ∧
-    (∀ c, cut c ≠ [] ∧ (cut c).flatten = c) ∧ R 0 0 ∧
-    sessionFits deflate 0 [[1, 2, 3, 4, 5, 6], [7, 7, 7, 7, 7, 7, 7]] :=
-  ⟨fun n x => ((0 :: x) ++ tail, n + 1), fun n s => some ((s.drop 1).take (s.length - 5), n + 1),
+    (∀ c, cut c ≠ [] ∧ (cut c).flatten = c) ∧ R 0 0 :=
+  ⟨fun n => n + (n + 7) / 8 + (n + 63) / 64 + 5,
+    fun n x => ((0 :: x) ++ tail, n + 1), fun n s => some ((s.drop 1).take (s.length - 5), n + 1),
     fun a b => a = b, fun c => [] :: c.map (fun b => [b]),
-    fun sd si h x => ⟨0 :: x, si + 1, by simp, rfl, by simp [tail_length], by simp [h]⟩,
+    fun sd si h x => ⟨0 :: x, si + 1, by simp, rfl, by simp [tail_length, flushMarkerMax]; omega,
+      by simp [tail_length], by simp [h]⟩,
     fun c => ⟨by simp, by induction c with
       | nil => rfl
       | cons a r ih => simpa using ih⟩,
-    rfl, ⟨by decide, by decide, trivial⟩⟩
+    rfl⟩
 
-/- Full statement of the round trip (FALSE for the code as it is, F37): the same without `hfit` /
-   `sessionFits`.  Witness: `roundtrip_counterexample` below. -/
-
-/-- F37: with the same assumptions about zlib a one-byte payload makes the tail check read outside `dest`,
-    and the empty payload is answered with -1 (which `send_frame` then uses as a length). -/
-theorem roundtrip_counterexample :
-    ∃ (zd : Bytes → Bytes) (zi : Bytes → Option Bytes),
-      (∀ x, ∃ body, body ≠ [] ∧ zd x = body ++ tail) ∧ (∀ x, zi (zd x) = some x) ∧
-      compress zd [0x41] = .wild ∧ compress zd [] = .error :=
-  ⟨fun x => (0 :: x) ++ tail, fun s => some ((s.drop 1).take (s.length - 5)),
-    fun x => ⟨0 :: x, by simp, rfl⟩,
-    fun x => by simp [tail_length],
-    by decide, by decide⟩
+/-- F37, the code BEFORE the repair (`strict = checked = false`: `2 * length` bytes for zlib, nothing
+    checked), with a zlib that satisfies all three assumptions: a one-byte payload makes the tail check read
+    outside `dest`, the empty payload is answered with -1, and `send_frame` uses either as the frame. -/
+theorem roundtrip_counterexample_before_fix :
+    ∃ (zd : Bytes → Option Bytes) (zi : Bytes → Option Bytes) (dbound : Nat → Nat),
+      (∀ x : Bytes, (zd x = some ((0 :: x) ++ tail) ∧ (0 :: x) ≠ []) ∧ zi ((0 :: x) ++ tail) = some x ∧
+        ((0 :: x) ++ tail).length ≤ dbound x.length + flushMarkerMax) ∧
+      compressWrapper false zd [0x41] = .wild ∧ compressWrapper false zd [] = .error ∧
+      sendFrame false false true dbound zd [0x41] = .bogus .wild ∧
+      sendFrame false false true dbound zd [] = .bogus .error ∧
+      (∃ i ∈ (compressAccess false zd 2 [0x41]).reads, i < 0) :=
+  ⟨fun x => some ((0 :: x) ++ tail), fun s => some ((s.drop 1).take (s.length - 5)),
+    fun n => n + (n + 7) / 8 + (n + 63) / 64 + 5,
+    fun x => ⟨⟨rfl, by simp⟩, by simp [tail_length], by simp [tail_length, flushMarkerMax]; omega⟩,
+    by decide, by decide, by decide, by decide, ⟨-1, by decide, by decide⟩⟩
 
 /-! ## negotiation -/
 
@@ -289,6 +335,23 @@ example :
     let offer : Bytes := extName ++ renderItem .cmw 15 ++ renderItem .smw 15 ++ renderItem .cnc 0 ++ renderItem .snc 0
     (negotiate 3 offer offer.length).accepted = true ∧
     (negotiate 3 offer offer.length).resp.length + 1 = responseMax := by
+  decide +kernel
+
+/-- F38 repaired: `fill_requested_extension(s, start, length)` reads `start[0 .. length)` only — for ALL
+    memory contents, ALL lengths (offers ending in blanks, right behind a `=`, inside a parameter name, …)
+    and every state of the negotiation; `fillReads` lists every `*(start + i)`, `*value_start` and the
+    ranges handed to `memcmp`.  Hence a whole header value is read inside `[0, length)` as well:
+    `check_websocket_extensions` hands over sub-ranges of it. -/
+theorem offer_parse_reads_in_bounds (e : Ext) (buf : Bytes) (length : Nat) :
+    ∀ i ∈ fillReads e buf length, i < length :=
+  fillReads_lt e buf length
+
+/-- non-vacuity: the offer that ends right behind the `=` is scanned up to its last byte, and the parser's
+    answer does not depend on what follows it in memory (before F38: `…bits=` followed by `15` was accepted) -/
+example :
+    let offer : Bytes := extName ++ [59, 32] ++ nameCmw ++ [61]
+    (fillReads (Ext.init 2) offer offer.length).length = 84 ∧ offer.length - 1 ∈ fillReads (Ext.init 2) offer offer.length ∧
+    (negotiate 2 (offer ++ [49, 53]) offer.length).accepted = false := by
   decide +kernel
 
 end Cjet.Props.C19
